@@ -46,7 +46,7 @@ def flip_keys(kind, logic, job):
             for k, c in re.findall(r'\((\d+), (\d+)\)', ans):
                 k, c = int(k), int(c)
                 over = ob.get('max_worlds') is not None and ob.get('n_worlds', 0) > ob['max_worlds']
-                keys.add(f'{kind}:' + c02.clause_key(logic, c, 'frame' if c in (4, 6) else ob['shapes'][k], over))
+                keys.add(f'{kind}:' + c02.clause_key(logic, c, 'frame' if c in (4, 6) else ob['shapes'][k], over, ob))
         if keys:
             return sorted(keys)
     except Exception:
